@@ -48,9 +48,11 @@ def run_job(job):
         ordering.order_tree(rng, root, n_files=rng.randint(4, 22), extra=job.get("extra", 0))
         add_archives(rng, root)
 
+        cwd_box = [w]
+
         def run(q, trace=False):
             res.ev()
-            return runner.run([q], cwd=w, home=home, trace=trace)
+            return runner.run([q], cwd=cwd_box[0], home=home, trace=trace)
 
         for qi in range(job["queries"]):
             arch = rng.random() < 0.4
@@ -59,6 +61,12 @@ def run_job(job):
                 frm = "t/d1%s, t/d2%s, t/many maxdepth 1" % (opts, opts)
             else:
                 frm = "t" + opts
+            # a query may leave out FROM and search the current directory: the limited queries do, M is learned with `from .`
+            nofrom = opts == "" and frm == "t" and rng.random() < 0.3
+            cwd_box[0] = root if nofrom else w
+            if nofrom:
+                frm = "."
+                res.count("queries_without_from")
             where = rng.choice(WHERES)
             ordered = rng.random() < 0.6
             wtxt = (" where " + where) if where else ""
@@ -106,7 +114,7 @@ def run_job(job):
             extra_col = rng.choice(["", "", ", 'tag'", ", 1 + 2", ", upper('x')", ", 7"])
             for N in ns:
                 ltxt = "" if N is None else " limit %d" % N
-                q = "path%s from %s%s%s%s into list" % (extra_col, frm, wtxt, otxt, ltxt)
+                q = "path%s%s%s%s%s into list" % (extra_col, "" if nofrom else " from " + frm, wtxt, otxt, ltxt)
                 r = run(q, trace=(N is not None and N % 5 == 1))
                 ctx = {"query": q, "M": M, "N": N, "result": r.brief()}
                 if r.verdict != "ok":
